@@ -75,7 +75,7 @@ func (g *gen) strExprTop(depth int, top bool) Expr {
 		}
 		return Expr{Kind: "var", Str: "s2"}
 	case 5, 6:
-		return Expr{Kind: "concat", Args: []Expr{g.strExpr(depth - 1), g.strExpr(depth - 1)}}
+		return Expr{Kind: "concat", Args: []Expr{g.strExpr(depth - 1), g.strExpr(depth - 1)}, Cmt: rapid.IntRange(0, 4).Draw(g.t, "cmt") == 0}
 	case 7:
 		return Expr{Kind: "sprintf", Fmt: rapid.SampledFrom([]string{"%s-%d", "[%s|%d]", "%s %d%%"}).Draw(g.t, "fmt"), Args: []Expr{g.strExpr(depth - 1), g.intExpr()}}
 	case 8:
@@ -451,6 +451,7 @@ func (g *gen) node(depth int) Node {
 		n.Kind = "gocode"
 		n.Var = g.id("v")
 		e := g.strExpr(1)
+		e.Cmt = rapid.IntRange(0, 3).Draw(g.t, "gocmt") == 0
 		n.E = &e
 		// make sure the variable is used (Go rejects unused variables): a use follows immediately
 		g.svars = append(g.svars, n.Var)
